@@ -484,6 +484,13 @@ async def _main(world: SchedWorld) -> None:
                             created = await kicker.schedule_by_time(src, make_time(sp["time"]), *args, **(sp.get("kwargs") or {}))
                         world.rec("op_create", source=op["source"], id=sp["id"], got_id=created.schedule_id,
                                   in_source=sum(1 for x in src.items if x.schedule_id == sp["id"]))
+                        if op.get("unschedule_after_us") is not None:
+                            # CreatedSchedule.unschedule(): the schedule is withdrawn from its source again
+                            await asyncio.sleep(op["unschedule_after_us"] / 1e6)
+                            await created.unschedule()
+                            world.fired("schedule_unscheduled")
+                            world.rec("op_unschedule", source=op["source"], id=sp["id"],
+                                      in_source=sum(1 for x in src.items if x.schedule_id == sp["id"]))
                     except Exception as exc:  # noqa: BLE001
                         world.rec("op_create_failed", source=op["source"], id=sp["id"], exc=type(exc).__name__)
                 world.fired("schedule_create")
